@@ -78,7 +78,8 @@ def _model_merge(old, new, mode, dfl):
         if isinstance(v, dict):
             if k not in old or not isinstance(old[k], dict):
                 old[k] = {}
-            _model_merge(old[k], v, mode, (dfl.get(k) if isinstance(dfl, dict) else None) or {})
+            sub = dfl.get(k) if isinstance(dfl, dict) else None
+            _model_merge(old[k], v, mode, sub if isinstance(sub, dict) else {})     # a scalar default says nothing about nested entries
         else:
             if mode == "new" or k not in old or (k in dfl and dfl[k] == old[k]):
                 old[k] = v
